@@ -380,6 +380,7 @@ pub struct Opts {
     pub blank_lines: bool,
     pub ws_only_lines: bool,
     pub ragged: bool,
+    pub ragged_pct: usize,
     pub max_depth: usize,
     pub max_top: usize,
     pub units: Vec<&'static str>,
@@ -389,6 +390,8 @@ pub struct Opts {
     pub unique_lines: bool,
     pub tag_styles: bool,
     pub max_tag_indent_jitter: bool,
+    /// (block-style documents) occasionally a whole unwrap-block element on a single line
+    pub single_line_unwrap: bool,
 }
 
 impl Opts {
@@ -404,6 +407,7 @@ impl Opts {
             blank_lines: true,
             ws_only_lines: true,
             ragged: true,
+            ragged_pct: 25,
             max_depth: 3,
             max_top: 5,
             units: vec!["  ", "    ", "\t"],
@@ -412,6 +416,7 @@ impl Opts {
             unique_lines: true,
             tag_styles: true,
             max_tag_indent_jitter: true,
+            single_line_unwrap: false,
         }
     }
 }
@@ -438,7 +443,7 @@ impl<'a, 't> Gen<'a, 't> {
     }
     fn indent(&mut self, level: usize) -> String {
         let mut l = level as isize;
-        if self.o.ragged && self.t.chance(25) {
+        if self.o.ragged && self.t.chance(self.o.ragged_pct) {
             l += self.t.below(4) as isize - 1; // -1..2
         }
         self.unit.repeat(l.max(0) as usize)
@@ -503,6 +508,12 @@ impl<'a, 't> Gen<'a, 't> {
                 10..=11 => {
                     if self.o.inline && depth_left > 0 {
                         v.push(self.inline_node(level))
+                    } else if self.o.single_line_unwrap && depth_left > 0 && self.t.chance(40) {
+                        let mut n = self.inline_node(level);
+                        if let Node::Inline { elem, .. } = &mut n {
+                            elem.unwrap = true;
+                        }
+                        v.push(n)
                     } else {
                         v.push(self.code_line(level))
                     }
